@@ -3,7 +3,7 @@
    Base/ResLemmas.v or C16/SatLemmas.v and followed by its assumptions. *)
 From stdpp Require Import gmap.
 From Coq Require Import ZArith.
-From V Require Import Base.Res Base.ResLemmas C16.SatModel C16.SatLemmas.
+From V Require Import Base.Res Base.ResLemmas C16.SatModel C16.SatLemmas C16.Laws C16.LawsLemmas.
 Open Scope Z_scope.
 
 (* --- saturating integers: for ALL int64 operands the Go body (modelled with
@@ -129,6 +129,28 @@ Theorem C16_min_dim_le_left : forall eps, 0 < eps -> forall r rr d,
   less_equal eps (min_dim r rr d) r DZero = true.
 Proof. exact min_dim_le_left. Qed.
 Print Assumptions C16_min_dim_le_left.
+
+(* --- the executable laws evaluated on the Go results accept the model's own results --- *)
+Theorem C16_law_sat_add_accepts_model : forall a b, in64 a -> in64 b -> law_sat_add a b (sat_add a b) = true.
+Proof. exact law_sat_add_model. Qed.
+Print Assumptions C16_law_sat_add_accepts_model.
+
+Theorem C16_law_sat_mul_accepts_model : forall a b, in64 a -> in64 b -> law_sat_mul a b (sat_mul a b) = true.
+Proof. exact law_sat_mul_model. Qed.
+Print Assumptions C16_law_sat_mul_accepts_model.
+
+Theorem C16_law_dra_accepts_model : forall l,
+  Forall (fun ct => in64 (fst ct) /\ in64 (snd ct)) l -> law_dra l (dra_total l) = true.
+Proof. exact law_dra_model. Qed.
+Print Assumptions C16_law_dra_accepts_model.
+
+Theorem C16_law_group_accepts_model : forall r x, law_group r x (add r x) (sub (add r x) x) (add x r) = true.
+Proof. exact law_group_model. Qed.
+Print Assumptions C16_law_group_accepts_model.
+
+Theorem C16_law_diff_accepts_model : forall r s, law_diff r s (fst (diff_zero r s)) (snd (diff_zero r s)) = true.
+Proof. exact law_diff_model. Qed.
+Print Assumptions C16_law_diff_accepts_model.
 
 (* non-vacuity: a concrete vector pair with scalars on one side only meets the
    hypotheses used above *)
